@@ -39,7 +39,7 @@ Lemma reject_object_id_eq oid :
 Proof. unfold beval. cbn. rewrite !z2b_b2z. reflexivity. Qed.
 
 Lemma reject_read_code_eq c :
-  beval (env_of [("self.read_code", c)]) (c_reject_read_code code) = negb ((0 <=? c) && (c <=? 4)).
+  beval (env_of [("self.read_code", c)]) (c_reject_read_code code) = negb ((1 <=? c) && (c <=? 4)).
 Proof. unfold beval. cbn. rewrite !z2b_b2z. reflexivity. Qed.
 
 Lemma code_constants :
@@ -138,11 +138,16 @@ Proof.
   rewrite IH. reflexivity.
 Qed.
 
-Lemma read_code_0_raises idn oid : 0 <= oid <= 255 -> execute code idn 0 oid = Raise KeyError.
+(* every read code outside 1..4 is answered with exception 03 (IllegalValue) - read code 0
+   included since /repo 9a34217 - and nothing is looked up *)
+Lemma invalid_read_code idn c oid :
+  0 <= oid <= 255 -> ~ (1 <= c <= 4) -> execute code idn c oid = Ok (ExcResponse 3).
 Proof.
-  intros H. unfold execute. rewrite reject_object_id_eq, reject_read_code_eq.
-  replace ((0 <=? oid) && (oid <=? 255)) with true by lia. reflexivity.
+  intros H Hc. unfold execute. rewrite reject_object_id_eq, reject_read_code_eq.
+  replace ((0 <=? oid) && (oid <=? 255)) with true by lia.
+  replace ((1 <=? c) && (c <=? 4)) with false by lia. reflexivity.
 Qed.
+
 
 (* ================================================================== completeness *)
 From Coq Require Import Sorting.Sorted.
@@ -376,7 +381,7 @@ Lemma execute_ok idn c oid :
 Proof.
   intros Hc Ho. unfold execute. rewrite reject_object_id_eq, reject_read_code_eq.
   replace ((0 <=? oid) && (oid <=? 255)) with true by lia.
-  replace ((0 <=? c) && (c <=? 4)) with true by lia. cbn [negb].
+  replace ((1 <=? c) && (c <=? 4)) with true by lia. cbn [negb].
   replace (c =? 0) with false by lia. reflexivity.
 Qed.
 
@@ -803,4 +808,19 @@ Lemma configured_spec h : configured code h = spec_configured h.
 Proof.
   unfold configured, spec_configured. generalize (@nil object).
   induction h as [|o t IH]; intros m; [reflexivity|]. cbn [fold_left]. rewrite cfg_apply_spec. apply IH.
+Qed.
+
+(* ================================================================== execute never raises *)
+
+Lemma execute_never_raises idn c oid : exists r, execute code idn c oid = Ok r.
+Proof.
+  unfold execute. rewrite reject_object_id_eq, reject_read_code_eq.
+  destruct ((0 <=? oid) && (oid <=? 255)) eqn:Eo; cbn [negb]; [|eauto].
+  destruct ((1 <=? c) && (c <=? 4)) eqn:Ec; cbn [negb]; [|eauto].
+  assert (Hc : c = 1 \/ c = 2 \/ c = 3 \/ c = 4) by lia.
+  destruct Hc as [-> | [-> | [-> | ->]]].
+  - rewrite factory_get_1. cbn [bind]. eauto.
+  - rewrite factory_get_2. cbn [bind]. eauto.
+  - rewrite factory_get_3. cbn [bind]. eauto.
+  - rewrite factory_get_4. cbn [bind]. eauto.
 Qed.
